@@ -7,7 +7,10 @@ import (
 	parser "github.com/modernizing/coca/languages/java"
 
 	"os"
+	"os/exec"
 	"path/filepath"
+	"runtime"
+	"runtime/pprof"
 	"sort"
 	"strconv"
 	"strings"
@@ -255,31 +258,80 @@ func TestFixtureRewrites(t *testing.T) {
 	}
 }
 
-// TestWitnesses runs every minimal witness under testdata/witness through the parser filter and the six
-// passes and prints the crash signatures. With C09_STRICT=1 a crash fails the test (regression test for
-// the tree in which the proposed fixes are merged).
+// TestWitnesses runs every minimal witness under testdata/witness alone in a fresh process (listener state
+// survives a panicking walk) through the parser filter and the six passes and prints the crash signatures.
+// With C09_STRICT=1 a crash fails the test (regression test for a tree in which the proposed fixes are merged).
 func TestWitnesses(t *testing.T) {
 	files, _ := filepath.Glob("testdata/witness/*.java")
 	sort.Strings(files)
 	for _, p := range files {
-		b, _ := os.ReadFile(p)
-		ok, why, pp := Accept(string(b))
-		if !ok {
-			t.Errorf("%s: not accepted: %s %s", p, why, pp)
-			continue
-		}
-		dir := t.TempDir()
-		os.WriteFile(filepath.Join(dir, "Witness.java"), b, 0o644)
-		res, _, _ := RunPasses(dir)
+		cmd := exec.Command(os.Args[0], "-test.run", "TestProbe", "-test.v")
+		cmd.Env = append(os.Environ(), "C09_FILE="+p)
+		out, _ := cmd.CombinedOutput()
 		var sigs []string
-		for _, r := range res {
-			if r.Panicked || r.MarshalErr != "" {
-				sigs = append(sigs, r.Sig()+" ("+short(r.Value, 90)+")")
+		accepted := false
+		for _, l := range strings.Split(string(out), "\n") {
+			if strings.HasPrefix(l, "accepted=true") {
+				accepted = true
 			}
+			if strings.Contains(l, "panicked=true") {
+				f := strings.Fields(l)
+				sigs = append(sigs, "panic@"+f[4]+"/"+f[0])
+			}
+		}
+		if !accepted {
+			t.Errorf("%s: not accepted by coca's parser", p)
 		}
 		fmt.Printf("%-55s %s\n", filepath.Base(p), strings.Join(sigs, "; "))
 		if len(sigs) > 0 && os.Getenv("C09_STRICT") != "" {
 			t.Errorf("%s: %v", p, sigs)
 		}
+	}
+}
+
+// TestMemory runs C09_N unusual files of one source (C09_SRC = handwritten|grammar|fixture, default: mix as in
+// the check) through the filter and the six passes and prints the live heap every 50 files (development aid).
+func TestMemory(t *testing.T) {
+	if os.Getenv("C09_MEM") == "" {
+		t.Skip("C09_MEM not set")
+	}
+	n := envN("C09_N", 400)
+	g, _ := javawide.LoadGrammar(repoDir())
+	for i := 0; i < n; i++ {
+		if os.Getenv("C09_NORESET") == "" {
+			Housekeeping()
+		}
+		r := run.CaseRand("C09", 1, i)
+		src := sourceOf(i)
+		if s := os.Getenv("C09_SRC"); s != "" {
+			src = s
+		}
+		var text string
+		switch src {
+		case "grammar":
+			text = javawide.Grammatical(r, g).Text
+		case "fixture":
+			list := fixtures()
+			b, _ := os.ReadFile(filepath.Join(repoDir(), "_fixtures", list[i%len(list)]))
+			text, _ = javawide.Rewrite(r, string(b), 0)
+		default:
+			text = javawide.Handwritten(r).Text
+		}
+		if ok, _, _ := Accept(text); ok {
+			dir := t.TempDir()
+			os.WriteFile(filepath.Join(dir, "U.java"), []byte(text), 0o644)
+			RunPasses(dir)
+		}
+		if i%50 == 49 {
+			runtime.GC()
+			var ms runtime.MemStats
+			runtime.ReadMemStats(&ms)
+			fmt.Printf("after %4d files: live heap %4d MB, sys %4d MB\n", i+1, ms.HeapAlloc>>20, ms.Sys>>20)
+		}
+	}
+	if p := os.Getenv("C09_HEAPPROF"); p != "" {
+		f, _ := os.Create(p)
+		pprof.WriteHeapProfile(f)
+		f.Close()
 	}
 }
